@@ -36,6 +36,7 @@ import (
 	"github.com/osmosis-labs/osmosis/osmoutils/sumtree"
 	lockupkeeper "github.com/osmosis-labs/osmosis/v31/x/lockup/keeper"
 	lockuptypes "github.com/osmosis-labs/osmosis/v31/x/lockup/types"
+	protorevtypes "github.com/osmosis-labs/osmosis/v31/x/protorev/types"
 )
 
 // rawStoreMap: every (key, value) of one KV store.
@@ -496,6 +497,9 @@ func incentivesDerivedOracle(o *Out, pre, post map[string]string, statusAfter fu
 
 // ---------------------------------------------------------------- whole app (engine det)
 
+// (protorev 0x02, the denom-pair -> pool index, used to be listed here as "derived state, rebuilt at the next epoch": that
+// swallowed an index that InitGenesis did NOT rebuild.  It is now compared entry by entry, see protorevIndexOracle.)
+//
 // detKnownStoreDiff: "store:key class:kind of difference" -> why the imported node's raw store differs from the exporting
 // node's on the UNCHANGED tree (exactly the classes observed over the sweep seeds 1,2,3,7,11 at quick tier and 720 imports
 // at thorough tier; each entry is a recorded finding or state that no genesis carries by design).  Counted, not failed.  Every other key of every store must be byte-identical after
@@ -507,8 +511,6 @@ var detKnownStoreDiff = map[string]string{
 	"ibc:clients/09-localhost/clientState:changed":        "F33: localhost client re-created at the import height",
 	"protorev:0x12:changed":                               "F32: cyclic-arb tracker start height",
 	"protorev:0x11:changed":                               "F32: cyclic-arb tracker",
-	"protorev:0x02:missing":                               "F37: denom-pair -> pool routes are derived state of the epoch hook, not exported; rebuilt at the next epoch",
-	"protorev:0x02:changed":                               "F37",
 	"concentratedliquidity:0x13:changed":                  "F35: per-denom total liquidity recomputed from pool balances",
 	"concentratedliquidity:0x0e:changed":                  "F41: full-range liquidity record recomputed",
 	"concentratedliquidity:0x0e:missing":                  "F41: no record for a pool without full-range position",
@@ -548,6 +550,12 @@ func detKeyClass(store, key string) string {
 		}
 		if strings.HasPrefix(key, "accum||") {
 			return "accum-total"
+		}
+	case "protorev":
+		// the highest-liquidity pool per (base denom, denom): derived state, rebuilt by InitGenesis (UpdatePools), read by
+		// x/txfees, x/incentives, x/poolmanager and protorev's own route builder: compared by meaning (protorevIndexOracle)
+		if key[0] == protorevtypes.KeyPrefixDenomPairToPool[0] {
+			return "denom-pair-to-pool"
 		}
 	case "staking":
 		if key[0] == 0x50 {
@@ -598,6 +606,9 @@ func detDerivedStores(o *Out, hist, k int, x, y *detNode) {
 			if n == lockuptypes.StoreKey && strings.HasPrefix(key, string(lockuptypes.KeyPrefixLockAccumulation)) {
 				return "" // sum trees: by meaning, below
 			}
+			if n == protorevtypes.StoreKey && detKeyClass(n, key) == "denom-pair-to-pool" {
+				return "" // entry by entry against a from-scratch recomputation, below
+			}
 			return detKeyClass(n, key) + ":" + what
 		})
 		for _, c := range sortedClassKeys(diffs) {
@@ -635,6 +646,9 @@ func detDerivedStores(o *Out, hist, k int, x, y *detNode) {
 				detail += fmt.Sprintf(" | ProtoRevKeeper.GetNumberOfTrades: exporting node %v (err %v), imported node %v (err %v); GetAllRoutes (routes with trade statistics): %v vs %v", tx, ex, ty, ey, rx, ry)
 			}
 			o.Fail("export-import:derived-store-differs:"+n+":"+c, detail)
+		}
+		if n == protorevtypes.StoreKey {
+			protorevIndexOracle(o, hist, k, x, y, mx, my)
 		}
 		if n == lockuptypes.StoreKey {
 			pre, _, _ := lockupAccumLeaves(cx, kx)
